@@ -493,10 +493,20 @@ func execJB(c config, hist []int) hk.Step {
 	x := &jbRun{c: c, m: &jbModel{store: newStore(), min: c.Min}}
 	var fail *failure
 	done := false
-	res := vsched.Run(vsched.Options{Strategy: vsched.BackgroundFirst{}, MaxSteps: 20000}, func() {
+	res := vsched.Run(vsched.Options{Strategy: vsched.BackgroundFirst{}, MaxSteps: 200000}, func() {
 		x.call = "New"
 		x.jb = jitterbuffer.New(jitterbuffer.WithMinimumPacketCount(uint16(c.Min)))
 		pushes := 0
+		// a run of consecutive packets pushed before the history starts (large minimum-start counts)
+		for k := 0; k < c.Pre; k++ {
+			q := c.Seqs[0] - uint16(c.Pre) + uint16(k)
+			if _, f := x.apply(jbOp{opPush, q, tsA, fmt.Sprintf("Push(%d,a)", q)}, false); f != nil {
+				fail = f
+				done = true
+				return
+			}
+			pushes++
+		}
 		for i, a := range hist {
 			last := i == len(hist)-1
 			o := ops[a]
